@@ -181,6 +181,18 @@ class Effects:
             return False
         return all(self.fresh_expr(f, v, seen | {name}) for v in vals)
 
+    def fresh_at(self, f: Func, name: str, at: ast.AST) -> bool:
+        """Flow-sensitive freshness: every definition of local `name` that reaches `at` binds a freshly built object."""
+        from .cfg import CFG
+        from .reach import Reaching
+        cache = self.__dict__.setdefault("_rd_cache", {})
+        if f not in cache:
+            cache[f] = Reaching(CFG(f.node))
+        ds = cache[f].at_ast(at, name)
+        if not ds:
+            return False
+        return all(d.kind == "assign" and d.value is not None and self.fresh_expr(f, d.value, frozenset({name})) for d in ds)
+
     def returns_fresh(self, g: Func) -> bool:
         if g in self._fresh_ret:
             return self._fresh_ret[g]
